@@ -182,6 +182,7 @@ def exc_signature(exc: BaseException) -> dict:
         "type": type(exc).__name__,
         "msg": str(exc)[:300],
         "inner": f"{os.path.basename(inner.filename)}:{inner.name}" if inner else None,
+        "caller": f"{os.path.basename(tb[-2].filename)}:{tb[-2].name}" if len(tb) > 1 else None,
         "myst": f"{os.path.basename(myst[-1].filename)}:{myst[-1].name}"
         if myst
         else None,
